@@ -3,11 +3,13 @@ package main
 import (
 	"bytes"
 	"context"
+	"encoding/hex"
 	"encoding/json"
 	"fmt"
 	core "github.com/iden3/go-iden3-core/v2"
 	"math/big"
 	"reflect"
+	"sort"
 	"strings"
 	"time"
 
@@ -44,10 +46,116 @@ func randProofs(r *Rng, s *verifySetup) []any {
 			o["type"] = "Iden3SparseMerkleProof"
 			out = append(out, o)
 		default:
-			out = append(out, map[string]any{"type": fmt.Sprintf("UnknownProof%d", r.Intn(9)), "x": r.Intn(1000), "nested": map[string]any{"a": []any{1.0, "b", nil}}, "coreClaim": "not hex"})
+			cc := "not hex"
+			if r.Chance(35) {
+				// a proof kind the library does not know may still carry a well-formed claim
+				cc, _ = s.claim.Hex()
+			}
+			out = append(out, map[string]any{"type": fmt.Sprintf("UnknownProof%d", r.Intn(9)), "x": r.Intn(1000), "nested": map[string]any{"a": []any{1.0, "b", nil}}, "coreClaim": cc})
 		}
 	}
 	return out
+}
+
+// The members of a proof that are numbers / byte strings written in hexadecimal: the claim, the issuer's auth claim, the
+// signature, the tree roots and the state. Hexadecimal notation has no letter case: "c9b2" and "C9B2" are the same claim.
+var proofHexMembers = map[string]bool{"coreClaim": true, "authCoreClaim": true, "signature": true, "value": true,
+	"claimsTreeRoot": true, "revocationTreeRoot": true, "rootOfRoots": true}
+
+type hexSite struct {
+	obj  map[string]any
+	key  string
+	path string
+}
+
+// hexSites lists the hexadecimal members of a proof (those with at least one digit a-f), in a fixed order.
+func hexSites(v any, path string, acc []hexSite) []hexSite {
+	switch x := v.(type) {
+	case map[string]any:
+		keys := make([]string, 0, len(x))
+		for k := range x {
+			keys = append(keys, k)
+		}
+		sort.Strings(keys)
+		for _, k := range keys {
+			if str, ok := x[k].(string); ok {
+				if _, err := hex.DecodeString(str); err == nil && proofHexMembers[k] && strings.ToUpper(str) != str {
+					acc = append(acc, hexSite{x, k, path + "." + k})
+				}
+				continue
+			}
+			acc = hexSites(x[k], path+"."+k, acc)
+		}
+	case []any:
+		for i, e := range x {
+			acc = hexSites(e, fmt.Sprintf("%s[%d]", path, i), acc)
+		}
+	}
+	return acc
+}
+
+// respellHex writes some of the digits a-f of a hexadecimal string as capitals: all of them, each with probability 1/2,
+// exactly one, or those of one stretch. The number written is the same.
+func respellHex(r *Rng, h string) (string, string) {
+	b := []byte(h)
+	var letters []int
+	for i, c := range b {
+		if c >= 'a' && c <= 'f' {
+			letters = append(letters, i)
+		}
+	}
+	if len(letters) == 0 {
+		return h, "none"
+	}
+	up := func(i int) { b[i] -= 'a' - 'A' }
+	mode := r.Pick([]string{"all", "half", "one", "stretch"})
+	switch mode {
+	case "all":
+		for _, i := range letters {
+			up(i)
+		}
+	case "half":
+		n := 0
+		for _, i := range letters {
+			if r.Bool() {
+				up(i)
+				n++
+			}
+		}
+		if n == 0 {
+			up(letters[r.Intn(len(letters))])
+		}
+	case "one":
+		up(letters[r.Intn(len(letters))])
+	default:
+		from := r.Intn(len(letters))
+		to := from + 1 + r.Intn(len(letters)-from)
+		for _, i := range letters[from:to] {
+			up(i)
+		}
+	}
+	return string(b), mode
+}
+
+// respellProofs rewrites, in place, hexadecimal members of the given proofs in another letter case and says which. The core
+// claim is the member chosen most often; the others (auth claim, signature, roots, state) come along now and then.
+func respellProofs(r *Rng, proofs []any) []string {
+	var what []string
+	for i, p := range proofs {
+		for _, st := range hexSites(p, fmt.Sprintf("proof[%d]", i), nil) {
+			pct := 12
+			if st.key == "coreClaim" {
+				pct = 65
+			}
+			if !r.Chance(pct) {
+				continue
+			}
+			nv, mode := respellHex(r, st.obj[st.key].(string))
+			st.obj[st.key] = nv
+			what = append(what, st.path+":"+mode)
+		}
+	}
+	return what
 }
 
 func emitStructView(out *Out, r *Rng) {
@@ -87,10 +195,17 @@ func emitStructView(out *Out, r *Rng) {
 	default:
 		doc["proof"] = proofs
 	}
+	// the same proofs in another spelling: a wallet, a database column or an issuer written in another language may hand
+	// the hexadecimal members on in capitals (the library itself writes small letters). What is attached is the same proofs.
+	asIssued, _ := json.Marshal(doc)
+	var respelled []string
+	if r.Chance(60) {
+		respelled = respellProofs(r, proofs)
+	}
 	withProof, _ := json.Marshal(doc)
 	merklize.SetDocumentLoader(loader)
 	var why []string
-	tags := []string{fmt.Sprintf("proofs:%d", len(proofs)), fmt.Sprintf("serialized:%v", c.SerAttr != "")}
+	tags := []string{fmt.Sprintf("proofs:%d", len(proofs)), fmt.Sprintf("serialized:%v", c.SerAttr != ""), fmt.Sprintf("respelled:%d", len(respelled))}
 	// (1) root of the original JSON without proof
 	mz0, err := merklize.MerklizeJSONLD(context.Background(), bytes.NewReader(noProof), merklize.WithDocumentLoader(loader))
 	if err != nil {
@@ -102,6 +217,12 @@ func emitStructView(out *Out, r *Rng) {
 	_, gerr := guard(20*time.Second, func() (int, error) {
 		var vc verifiable.W3CCredential
 		if err := json.Unmarshal(withProof, &vc); err != nil {
+			if len(respelled) > 0 {
+				var vcIssued verifiable.W3CCredential
+				if json.Unmarshal(asIssued, &vcIssued) == nil {
+					return 0, fmt.Errorf("the credential decodes with its proofs as issued but not with the same proofs writing hexadecimal digits in capitals (%s) - there is no struct view and no root for it, the outcome depends on the content of an attached proof: decode: %w", strings.Join(respelled, ", "), err)
+				}
+			}
 			return 0, fmt.Errorf("decode: %w", err)
 		}
 		mz1, err := vc.Merklize(context.Background(), merklize.WithDocumentLoader(loader))
@@ -186,12 +307,13 @@ func emitStructView(out *Out, r *Rng) {
 				hx, _ := pm["coreClaim"].(string)
 				var ref core.Claim
 				wellFormed := ref.FromHex(hx) == nil
+				refHex, _ := ref.Hex() // the claim, not its spelling in the document
 				for _, obj := range []verifiable.CredentialProof{vc.Proof[i], vc2.Proof[i]} {
 					cl, err := obj.GetCoreClaim()
 					if wellFormed {
 						if err != nil || cl == nil {
 							why = append(why, fmt.Sprintf("proof %d (%T): GetCoreClaim fails (%v) although the JSON carries a well-formed claim", i, obj, err))
-						} else if h, _ := cl.Hex(); h != hx {
+						} else if h, _ := cl.Hex(); h != refHex {
 							why = append(why, fmt.Sprintf("proof %d (%T): GetCoreClaim gives another claim than the JSON carries", i, obj))
 						}
 					}
